@@ -27,6 +27,7 @@ import glob
 import itertools
 import json
 import os
+import select
 import shutil
 import signal
 import struct
@@ -47,6 +48,7 @@ THEOREMS = [
     'Pyiga.Props.C20.published_never_replaced', 'Pyiga.Props.C20.request_succeeds',
     'Pyiga.Props.C20.recovery', 'Pyiga.Props.C20.recovery_after_crashes',
     'Pyiga.Props.C20.step_touches_only_own_entry', 'Pyiga.Props.C20.repaired_heals_rejected_entry',
+    'Pyiga.Props.C20.repaired_rebuilds_absent_entry', 'Pyiga.Props.C20.wipe_keeps_invariant', 'Pyiga.Props.C20.request_after_wipe',
     'Pyiga.Props.C20.digest_injectivity_needed', 'Pyiga.Props.C20.rename_atomicity_needed', 'Pyiga.Props.C20.sharedTmp_unsafe',
 ]
 MODULES = ['Pyiga.Model.CompileCache', 'Pyiga.Proofs.CompileCache', 'Pyiga.Props.C20']
@@ -83,6 +85,43 @@ except BaseException as e:
     res.update(outcome='exc', kind=type(e).__name__, msg=str(e)[:160])
 res['rebuilt'] = bool(calls)
 out.write(json.dumps(res) + '\n'); out.flush()
+os._exit(0)
+'''
+
+# a long-lived process: one request per stdin line `req <k>` (form (1+k/8)*u*v*dx), one JSON answer line each
+SESSION = r'''
+import os, sys, json
+out = os.fdopen(os.dup(1), 'w')
+dn = os.open(os.devnull, os.O_WRONLY); os.dup2(dn, 1); os.dup2(dn, 2)
+import numpy as np
+from pyiga import compile, vform, bspline, assemble, geometry
+calls = []
+orig = compile._compile_cython_module_nocache
+def wrap(src, modname, verbose=False):
+    calls.append(modname); return orig(src, modname, verbose=verbose)
+compile._compile_cython_module_nocache = wrap
+kv = bspline.make_knots(2, 0.0, 1.0, 5)
+geo = geometry.line_segment(0.0, 2.0)
+ref = 2.0 * assemble.bsp_mass_1d(kv).toarray()
+for line in sys.stdin:
+    w = line.split()
+    if not w or w[0] != 'req':
+        break
+    k = int(w[1]); c = 1.0 + k / 8.0
+    del calls[:]
+    res = {'k': k}
+    try:
+        vf = vform.VForm(1)
+        u, v = vf.basisfuns()
+        vf.add(c * u * v * vform.dx)
+        A = compile.compile_vform(vf)
+        M = assemble.assemble_entries(A((kv,), geo), symmetric=False).toarray()
+        err = float(abs(M - c * ref).max())
+        res.update(outcome='ok' if err < 1e-12 else 'wrong', err=err, mod=A.__module__)
+    except BaseException as e:
+        res.update(outcome='exc', kind=type(e).__name__, msg=str(e)[:160])
+    res['rebuilt'] = bool(calls)
+    out.write(json.dumps(res) + '\n'); out.flush()
 os._exit(0)
 '''
 
@@ -534,6 +573,132 @@ def _run(ctx, lab):
         spread = float(rng.choice([0.0, 0.5, 3.0]))
         rounds.append((['mass'] * n, (spread * rng.random(n)).tolist()))
     rounds.append((['mass', 'stiff'] * (2 if quick else 4), (0.3 * rng.random(4 if quick else 8)).tolist()))
+    # ---- stream E: long-lived processes, external cache wipes between their requests ------------------------
+    def read_answer(proc, buf, timeout=600):
+        """one JSON line from the session's stdout, or None if it died / timed out"""
+        t = time.time()
+        while b'\n' not in buf[0]:
+            if time.time() - t > timeout:
+                return None
+            r, _, _ = select.select([proc.stdout], [], [], 1.0)
+            if r:
+                chunk = os.read(proc.stdout.fileno(), 65536)
+                if not chunk:
+                    return None
+                buf[0] += chunk
+        line, buf[0] = buf[0].split(b'\n', 1)
+        try:
+            return json.loads(line.decode())
+        except Exception:
+            return None
+
+    def fresh_request(d, k):
+        p = subprocess.run([PY, '-B', '-c', SESSION], input=('req %d\nquit\n' % k).encode(), env=child_env(d),
+                           stdout=subprocess.PIPE, stderr=subprocess.DEVNULL, timeout=900)
+        if p.returncode < 0:
+            return {'outcome': 'signal', 'signal': -p.returncode, 'k': k}
+        try:
+            return json.loads(p.stdout.decode().strip().split('\n')[0])
+        except Exception:
+            return {'outcome': 'exit', 'rc': p.returncode, 'k': k}
+
+    def session_case(hist):
+        """hist: list of ('req', k) | ('fresh', k) | ('wipe',) | ('delso', k).  `req` are the successive requests of ONE
+        long-lived process; `wipe` is scripts/clear-cache.py run by another process on the same cache."""
+        d = lab.dir('sess')
+        os.makedirs(d)
+        sess = subprocess.Popen([PY, '-B', '-c', SESSION], env=child_env(d), stdin=subprocess.PIPE, stdout=subprocess.PIPE,
+                                stderr=subprocess.DEVNULL, start_new_session=True)
+        buf = [b'']
+        alive = True
+        mods = {}
+        done = []
+        for op in hist:
+            op = tuple(op)
+            if op[0] == 'req':
+                if not alive:
+                    done.append((op, {'outcome': 'session-dead', 'k': op[1]}))
+                    continue
+                try:
+                    sess.stdin.write(('req %d\n' % op[1]).encode()); sess.stdin.flush()
+                    r = read_answer(sess, buf)
+                except (BrokenPipeError, OSError):
+                    r = None
+                if r is None:
+                    alive = False
+                    kill_group(sess)
+                    rc = sess.returncode
+                    r = {'outcome': 'signal', 'signal': -rc, 'k': op[1]} if rc is not None and rc < 0 else {'outcome': 'exit', 'rc': rc, 'k': op[1]}
+                done.append((op, r))
+            elif op[0] == 'fresh':
+                r = fresh_request(d, op[1])
+                done.append((op, r))
+            elif op[0] == 'wipe':
+                script = os.path.join(REPO, 'scripts', 'clear-cache.py')
+                how = 'nothing to remove'
+                if os.path.isdir(moddir(d)):
+                    how = 'scripts/clear-cache.py'
+                    pr = subprocess.run([PY, '-B', script], env=child_env(d), stdout=subprocess.DEVNULL, stderr=subprocess.DEVNULL)
+                    if pr.returncode != 0 or os.path.isdir(moddir(d)):
+                        how = 'rm -rf (clear-cache.py exit %d)' % pr.returncode
+                        shutil.rmtree(moddir(d), ignore_errors=True)
+                done.append((op, {'outcome': 'wiped', 'how': how}))
+                continue
+            elif op[0] == 'delso':
+                fs = glob.glob(os.path.join(moddir(d), mods.get(op[1], 'no-such-module') + '*.so'))
+                if not fs:
+                    continue            # nothing published under that name: the event is dropped from the history
+                for f in fs:
+                    os.unlink(f)
+                done.append((op, {'outcome': 'deleted'}))
+                continue
+            if r.get('outcome') == 'ok' and r.get('mod'):
+                mods[op[1]] = r['mod']
+        if alive:
+            try:
+                sess.stdin.write(b'quit\n'); sess.stdin.flush()
+                sess.wait(timeout=30)
+            except Exception:
+                pass
+            kill_group(sess)
+        # published entries that load
+        pub = []
+        if os.path.isdir(moddir(d)):
+            for f in sorted(glob.glob(os.path.join(moddir(d), 'mod*.so'))):
+                pub.append((os.path.basename(f).split('.')[0], probe_so(f, d)))
+        shutil.rmtree(d, ignore_errors=True)
+        return ('session', done, mods, pub)
+
+    def gen_history(nforms, nmid, ntail):
+        """random history; always contains the pattern  session request … wipe … session request of a form the session has
+        not seen  (the later requests of a long-lived process after its cache was cleared), the rest is free"""
+        ks = [int(k) for k in rng.permutation(nforms) + 1]
+        seen = [ks[0]]
+        h = [('req', ks[0])]
+
+        def free(n):
+            for _ in range(n):
+                kind = str(rng.choice(['req', 'req', 'fresh', 'wipe', 'delso']))
+                if kind == 'wipe':
+                    h.append(('wipe',))
+                else:
+                    k = int(rng.choice(ks))
+                    h.append((kind, k))
+                    if kind == 'req' and k not in seen:
+                        seen.append(k)
+        free(nmid)
+        new = [k for k in ks if k not in seen]
+        h.append(('wipe',))
+        h.append(('req', new[0] if new else ks[0]))
+        free(ntail)
+        # afterwards every form is requested once more by a fresh process
+        return h + [('fresh', k) for k in sorted(set(op[1] for op in h if len(op) > 1))]
+
+    hists = [gen_history(2, 0, 1), gen_history(3, 1, 1)] if quick else [gen_history(int(rng.integers(2, 5)), int(rng.integers(0, 3)), int(rng.integers(0, 3))) for _ in range(8)]
+    if rp is not None:
+        hists = [rp['history']] if rp.get('stream') == 'session' else []
+    sfuts = [pool.submit(session_case, h) for h in hists]
+
     # quick: all rounds at once next to the other streams; thorough: one round at a time (cleaner timing)
     if rp is not None:
         rounds = [(rp['forms'], rp['start_offsets_s'])] * 3 if rp.get('stream') == 'race' else []
@@ -541,6 +706,7 @@ def _run(ctx, lab):
     rfuts = [rpool.submit(race, f, o) for f, o in rounds] + [rpool.submit(held_link_race) for _ in range((1 if quick else 3) if want('held-link-race') else 0)]
 
     results = [f.result() for f in futs]
+    sres = [f.result() for f in sfuts]
     pool.shutdown()
 
     # ---- evaluate A, B, C ---------------------------------------------------------------------------
@@ -698,6 +864,57 @@ def _run(ctx, lab):
             if not ok:
                 ctx.violation('model-diff:held-link-race', 'model `%s`, real `%s`' % (got, real), replay, False)
 
+    # ---- evaluate E ---------------------------------------------------------------------------------------
+    sreqs, sexp = [], []
+    for (_, done, mods, pub) in sres:
+        hist = [list(op) for op, _ in done]
+        ctx.case(('session', tuple(map(tuple, hist))))
+        ctx.count('session-histories')
+        ctx.sample('session %s -> %s' % (' '.join('%s%s' % (op[0], op[1] if len(op) > 1 else '') for op in hist),
+                                       [r['outcome'] + (':rebuilt' if r.get('rebuilt') else '') for _, r in done if r['outcome'] not in ('wiped', 'deleted')]), limit=20)
+        replay = {'stream': 'session', 'history': hist, 'results': [r for _, r in done],
+                  'how': 'req k = k-th..: successive requests (form (1+k/8)*u*v*dx on a stretched segment) of ONE long-lived process; fresh k = the same request in a '
+                         'new process; wipe = scripts/clear-cache.py run by another process on the same XDG_CACHE_HOME; delso k = delete the published entry'}
+        wiped = False
+        in_session = set()      # forms the long-lived process holds in its in-process (level 1) cache
+        ev, slots, real_pc, real_built = [], 0, [], []
+        for op, r in done:
+            if op[0] == 'wipe':
+                wiped = True; ev.append('w'); ctx.count('session-wipes'); continue
+            if op[0] == 'delso':
+                ev.append('f S %d so A' % op[1]); continue
+            ctx.count('session-requests' if op[0] == 'req' else 'session-fresh-requests')
+            if r['outcome'] != 'ok':
+                key = 'session:request-after-cache-wipe' if (wiped and op[0] == 'req') else 'session:%s' % ('request' if op[0] == 'req' else 'fresh-request')
+                ctx.violation(key, '%s in history %s ended with %s' % ('request %d of the long-lived process' % op[1] if op[0] == 'req' else 'fresh process requesting form %d' % op[1],
+                                                                      ' '.join('%s%s' % (o[0], o[1] if len(o) > 1 else '') for o in hist), json.dumps(r)), replay, True)
+            if op[0] == 'req' and op[1] in in_session:
+                continue            # served by compile_vform's in-process cache: no protocol step, nothing to compare with the disk model
+            if op[0] == 'req' and r['outcome'] == 'ok':
+                in_session.add(op[1])
+            ev += ['s %d %d' % (slots, op[1])] + ['r %d 0' % slots] * nsteps
+            slots += 1
+            real_pc.append('loaded:%d' % op[1] if r['outcome'] == 'ok' else abstract_outcome(r))
+            real_built.append('1' if r.get('rebuilt') else '0')
+        forms = sorted(set(op[1] for op, _ in done if len(op) > 1))
+        known = all(k in mods for k in forms)
+        okpub = set(m for m, st in pub if st == 'ok')
+        real_files = ' '.join(('C%d' % k if mods.get(k) in okpub else ('P' if mods.get(k) in dict(pub) else 'A')) for k in forms)
+        sreqs.append('x %s %d %s %d %d %s' % (proto, len(ev), ' '.join(ev), slots, len(forms), ' '.join('S %d so' % k for k in forms)))
+        sexp.append(('pc %s built %s files %s' % (' '.join(real_pc), ' '.join(real_built), real_files), known, replay))
+    sbad = 0
+    for req, ans, (real, known, replay) in zip(sreqs, ctx.model('drv_c20', sreqs), sexp):
+        got = ans.rsplit(' tmp ', 1)[0]
+        if not known:
+            got, real = got.split(' files ')[0], real.split(' files ')[0]
+        ctx.count('model-ties')
+        if got != real:
+            sbad += 1
+            ctx.violation('model-diff:session', 'model and implementation disagree on a session history: model `%s`, real `%s`' % (got, real),
+                          dict(replay, model_request=req, model_answer=got, implementation=real), False)
+    ctx.obligation('correspondence: %d session histories with external cache wipes equal the model (wipe = empty directory, next request rebuilds and publishes)' % len(sreqs),
+                   sbad == 0, '%d disagreements' % sbad)
+
     import resource
     ru = resource.getrusage(resource.RUSAGE_CHILDREN)
     ctx.extra['children_cpu_s'] = round(ru.ru_utime + ru.ru_stime, 1)     # wall time on an idle 16-core machine ~ this / 16 + serial parts
@@ -705,7 +922,8 @@ def _run(ctx, lab):
                 '{empty, 64-byte header, one page, quarter, half, all-but-last-byte, garbage, delete} then two fresh processes; builds killed when gcc is '
                 'invoked for compile/link, after a truncated link, after the link (+ hook stages when present), then a fresh process, also with a second '
                 'fault on a file the killed build left; SIGKILL of the process group at seeded random times; 2..8(16) processes racing on the same '
-                'and on two forms with seeded start offsets; a schedule-controlled race (linker descheduled mid-write)')
+                'and on two forms with seeded start offsets; a schedule-controlled race (linker descheduled mid-write); long-lived processes making several '
+                'requests (forms (1+k/8)*u*v*dx) with external cache wipes (scripts/clear-cache.py), entry deletions and fresh-process requests in between')
     ctx.notes.append('cannot exhibit: kernel rename/dlopen semantics (rename atomicity is an assumption of safe_repaired; both loader reactions to a '
                      'partial file are modelled and whichever the sandboxed probe observes is compared), real scheduling (sampled here, exhaustively interleaved in the model)')
     if inplace:
